@@ -395,6 +395,9 @@ def run(ctx: Ctx) -> None:
     ctx.rule('R11.3', 'no process-global generator reachable from _run when an rng is supplied', floor=5)
     ctx.trust('success test itself and the logical-effect layout are decided in C04; the sampler in C07; decoder '
               'purity in C06')
-    _r111(ctx)
-    _r112(ctx)
-    _r113(ctx)
+    with ctx.part():
+        _r111(ctx)
+    with ctx.part():
+        _r112(ctx)
+    with ctx.part():
+        _r113(ctx)
